@@ -32,12 +32,27 @@ func TestVerif_C17_Push(t *testing.T) {
 	for round := 0; round < rounds; round++ {
 		for _, proto := range []string{db.CBMobileReplicationV3.SubprotocolString(), db.CBMobileReplicationV4.SubprotocolString()} {
 			// a subtest per round: the peers' cleanups (registered by the setup helper) run when it ends
-			t.Run(fmt.Sprintf("r%d-%s", round, proto), func(t *testing.T) { c17PushRound(t, run, round, proto) })
+			t.Run(fmt.Sprintf("r%d-%s", round, proto), func(t *testing.T) { c17PushRound(t, run, round, proto, false) })
 		}
 	}
 }
 
-func c17PushRound(t *testing.T, run *vlib.Run, round int, proto string) {
+// Two changes batches of one push in flight (DefaultMaxConcurrentChangesBatches = 2): the batch size is 2-3, the first
+// batch consists of wanted revisions whose documents the ACTIVE side reads slowly (so its revisions are sent, and its
+// sequences announced to the checkpointer, late), later batches are mostly already known to the passive side and are
+// answered at once. Same oracle: every persisted checkpoint value is judged when it is written.
+func TestVerif_C17_PushBatches(t *testing.T) {
+	run := vlib.Start(t, "C17", "push-batches")
+	defer run.Finish()
+	rounds := run.N(6, 60)
+	for round := 0; round < rounds; round++ {
+		for _, proto := range []string{db.CBMobileReplicationV3.SubprotocolString(), db.CBMobileReplicationV4.SubprotocolString()} {
+			t.Run(fmt.Sprintf("r%d-%s", round, proto), func(t *testing.T) { c17PushRound(t, run, round, proto, true) })
+		}
+	}
+}
+
+func c17PushRound(t *testing.T, run *vlib.Run, round int, proto string, batches bool) {
 	r := run.CaseRand(round)
 	vsA := newVStore(t) // active
 	vsP := newVStore(t) // passive
@@ -54,6 +69,11 @@ func c17PushRound(t *testing.T, run *vlib.Run, round int, proto string) {
 
 	// corpus: n documents on the active side; a PRNG-chosen subset is already on the passive side with the same revision
 	n := r.Range(4, 9)
+	batchSize := 200
+	if batches {
+		batchSize = r.Range(2, 3)
+		n = batchSize + r.Range(2, 5)
+	}
 	type docT struct {
 		ID    string
 		Seq   uint64
@@ -67,6 +87,10 @@ func c17PushRound(t *testing.T, run *vlib.Run, round int, proto string) {
 		}
 		if i == n-1 {
 			d.Known = true // the batch ends on an already known change: the shape that lets a checkpoint run ahead
+		}
+		if batches {
+			// first batch: wanted; later batches: already known except, sometimes, one wanted revision
+			d.Known = i >= batchSize && !(i == batchSize && r.Chance(1, 3))
 		}
 		body := fmt.Sprintf(`{"channels":["alice"],"n":%d,"_revisions":{"start":1,"ids":["abc%d"]}}`, i, i)
 		resp := active.SendAdminRequest("PUT", "/{{.keyspace}}/"+d.ID+"?new_edits=false", body)
@@ -94,6 +118,21 @@ func c17PushRound(t *testing.T, run *vlib.Run, round int, proto string) {
 		}
 		return base.VerifDecision{}
 	})
+	if batches {
+		// the active side reads the documents of the first batch slowly while it sends their revisions
+		slow := map[string]bool{}
+		for i := 0; i < batchSize; i++ {
+			slow[docs[i].ID] = true
+		}
+		rdelay := time.Duration(r.Range(40, 90)) * time.Millisecond
+		vsA.SetFault(func(op *base.VerifOp, actor string) base.VerifDecision {
+			if slow[op.Key] && strings.HasPrefix(op.Kind, "Get") {
+				time.Sleep(rdelay)
+			}
+			return base.VerifDecision{}
+		})
+		defer vsA.SetFault(nil)
+	}
 	// widen the window between the two notifications of a changes response
 	db.SetVerifPointHook(func(name string) {
 		if name == "push-changes-response-between-known-and-expected" {
@@ -147,9 +186,13 @@ func c17PushRound(t *testing.T, run *vlib.Run, round int, proto string) {
 				}
 				shape = append(shape, fmt.Sprintf("%d:%s", d.Seq, k))
 			}
-			run.Violation("safety", "C17|push|persisted-checkpoint-ahead-of-a-sent-unprocessed-change",
+			sig := "C17|push|persisted-checkpoint-ahead-of-a-sent-unprocessed-change"
+			if batches {
+				sig = "C17|push|two-batches-in-flight|persisted-checkpoint-ahead-of-an-unprocessed-change-of-an-earlier-batch"
+			}
+			run.Violation("safety", sig,
 				fmt.Sprintf("checkpoint %s was persisted while %v had not been stored by the passive peer yet (a restart from this checkpoint skips them)", cp.LastSeq, behind),
-				map[string]any{"protocol": proto, "batch": shape, "checkpoints": checkpoints, "passive_store_delay_ms": delay.Milliseconds()})
+				map[string]any{"protocol": proto, "batch": shape, "changes_batch_size": batchSize, "checkpoints": checkpoints, "passive_store_delay_ms": delay.Milliseconds()})
 		}
 	})
 	defer vsA.SetPostHook(nil)
@@ -167,7 +210,7 @@ func c17PushRound(t *testing.T, run *vlib.Run, round int, proto string) {
 	ar, err := db.NewActiveReplicator(active.Context(), &db.ActiveReplicatorConfig{
 		ID: replID, Direction: db.ActiveReplicatorTypePush, RemoteDBURL: remote,
 		ActiveDB:               &db.Database{DatabaseContext: active.GetDatabase()},
-		ChangesBatchSize:       200,
+		ChangesBatchSize:       uint16(batchSize),
 		CheckpointInterval:     2 * time.Millisecond,
 		ReplicationStatsMap:    rstats,
 		CollectionsEnabled:     !active.GetDatabase().OnlyDefaultCollection(),
